@@ -182,6 +182,12 @@ def exec_job(job):
                 if op["op"] == "new":
                     pool[i], _ = build(job["configs"][op["c"]])
                     inited[i] = False
+                elif op["op"] == "reject":
+                    try:                                   # a configuration the model rejects: the attempt raises (if it does not, it is just another model)
+                        mm, _ = build(job["configs"][op["c"]])
+                        mm.run_model(num_steps=1)
+                    except Exception:
+                        pass
                 elif op["op"] == "step":
                     if pool[i]._clock_struct.model_is_finished if inited[i] else False:
                         continue
